@@ -9,9 +9,10 @@ MCNode == {"L", "d1", "d2", "f", "o"}
 MCDelegates == (SUBSET {"L", "d1", "d2"}) \ {{}}
 MCNsStates == [n \in MCNode |->
                  CASE n = "L" -> {"absent", "unsigned", "signed", "corrupt"}
-                   [] n \in {"d1", "d2"} -> {"absent", "unsigned", "signed"}
+                   [] n = "d1" -> {"absent", "unsigned", "signed", "signed2"}
+                   [] n = "d2" -> {"absent", "unsigned", "signed"}
                    [] n = "f" -> {"absent", "signed"}
-                   [] n = "o" -> {"absent", "unsigned", "signed", "corrupt"}]
+                   [] n = "o" -> {"absent", "unsigned", "signed", "signed2", "corrupt"}]
 
 MCIdStates == {"ok", "missing", "unsupported"}
 
